@@ -34,7 +34,8 @@ Init == l = 1 /\ first = [group |-> -1, rc |-> 0, line |-> 0, texts |-> <<>>] /\
 Step ==
   /\ l <= Len(Rec) /\ l' = l + 1
   /\ LET e == Rec[l] IN
-     /\ viol' = IF Cardinality(viol) < 25 THEN viol \cup {[prop |-> "C11", line |-> l, id |-> e.id, what |-> w] : w \in Bad(e)} ELSE viol
+     /\ viol' = viol \cup { v \in {[prop |-> "C11", line |-> l, id |-> e.id, what |-> w] : w \in Bad(e)} :
+                                 Cardinality({ u \in viol : u.what = v.what }) < 6 }
      /\ first' = IF first.group = e.group THEN first
                  ELSE [group |-> e.group, rc |-> e.rc, line |-> e.line, texts |-> [i \in DOMAIN e.excerpt |-> e.excerpt[i].text]]
      /\ stats' = [stats EXCEPT !.inputs = @ + 1, !.accepted = @ + (IF e.rc = 0 THEN 1 ELSE 0), !.rejected = @ + (IF e.rc = 1 THEN 1 ELSE 0),
